@@ -384,7 +384,7 @@ def inherit_descs(tier):
                                packet("GrandChild", [scalar("y", 16)], parent="Child3", cons=[cons("x", 7)])],
                     name="inh_size_and_payload_sibling"))
     # parents whose data fields are not plain scalars (arrays, structs): inherited by the child, with and without a payload
-    out.append(desc("little", [SS, packet("Parent", [scalar("v", 8), count("a", 8), array("a", 16), typedef("s", "SS"), payload()]),
+    out.append(desc("little", [SS, packet("Parent", [scalar("v", 8), count("a", 8), array("a", 16), typedef("st", "SS"), payload()]),
                                packet("Child", [scalar("x", 8)], parent="Parent", cons=[cons("v", 1)])], name="inh_parent_array"))
     out.append(desc("little", [packet("Parent", [scalar("v", 8), count("a", 8), array("a", 16)]),
                                packet("Child", [], parent="Parent", cons=[cons("v", 7)])], name="inh_nopayload_array"))
